@@ -68,12 +68,18 @@ fn random_config(rng: &mut SplitMix64, thorough: bool, hb: bool) -> Config {
     let l = 1 + rng.below(lmax) as usize;
     let beta = [0.125, 0.25, 0.5, 1.0, 2.0, 4.0][rng.below(6) as usize];
     // containers shorter than, equal to and (rarely) longer than the cutoff
-    let len = match rng.below(10) {
-        0 => rng.below(l as u64 + 1) as usize,
-        _ => l,
+    // (longer: the allocated container exceeds the cutoff handed to the update, as after a lowered
+    //  cutoff or a manager swap; the operators sit in the first l slots, so count < cutoff can hold)
+    let (len, extra) = match rng.below(10) {
+        0 => (rng.below(l as u64 + 1) as usize, 0),
+        1 | 2 => (l, 1 + rng.below(4) as usize),
+        _ => (l, 0),
     };
     let (fa, fb) = [(1, 4), (1, 2), (3, 4), (9, 10)][rng.below(4) as usize];
-    let (st0, sl0) = random_string(rng, &h, nvars, len, fa, fb);
+    let (st0, mut sl0) = random_string(rng, &h, nvars, len, fa, fb);
+    for _ in 0..extra {
+        sl0.push(None);
+    }
     Config { h, nvars, l, beta, st0, sl0, hb }
 }
 
@@ -121,7 +127,7 @@ pub fn live_count_oracle(c: &Config) -> Vec<serde_json::Value> {
     let two64 = 18446744073709551616.0f64;
     let mut fails = vec![];
     let nb = c.h.nbonds();
-    if c.l < 2 || c.sl0.len() != c.l {
+    if c.l < 2 || c.sl0.len() < c.l {
         return fails;
     }
     let o0 = match &c.sl0[0] {
@@ -384,7 +390,7 @@ pub fn run(args: &Args) -> serde_json::Value {
     for i in 0..n_probe_cfg {
         let hb = i % 2 == 1;
         let mut c = random_config(&mut rng, false, hb);
-        if c.sl0.is_empty() || c.sl0.len() != c.l {
+        if c.sl0.is_empty() || c.sl0.len() < c.l {
             continue;
         }
         // free slot 0 (keeping the world line valid: only drop it if it is empty or diagonal)
